@@ -36,10 +36,41 @@ for cc in ('gcc', 'clang'):
                 t = l.split()
                 if len(t) >= 5 and ' O ' in l:
                     sec = t[-3]
-                    if (sec.startswith('.data') and not sec.startswith('.data.rel.ro')) or sec.startswith('.bss') or sec == '*COM*':
+                    if (sec.startswith('.data') and not sec.startswith('.data.rel.ro')) or sec.startswith('.bss') or sec == '*COM*' or sec.startswith(('.tbss', '.tdata')):
                         wr.add(t[-1])
             wr = sorted(wr)
             builds.append((name, und, wr))
+# beyond the twelve configurations the property names: position-independent code, and other targets clang can generate code
+# for with nothing but its own freestanding headers (32-bit ARM / RISC-V bare metal, AArch64, Windows kernel-style builds);
+# there is no linker for those here, so undefined = referenced by some object and defined by none
+extra = []
+for cc in ('gcc', 'clang'):
+    for opt in ('-O0', '-O2'):
+        name = '%s %s -fPIC' % (cc, opt)
+        d = os.path.join(build, 'sym', (cc + opt + 'pic').replace('-', '_')); os.makedirs(d, exist_ok=True); objs = []
+        for f in CORE:
+            o = os.path.join(d, f[:-2] + '.o'); rc, out = sh([cc, opt, '-fPIC', '-w', '-c', '-I' + inc, os.path.join(inc, f), '-o', o])
+            if rc != 0: errs.append('%s: %s does not compile: %s' % (name, f, out[-300:]))
+            objs.append(o)
+        core = os.path.join(d, 'core.o'); rc, out = sh(['ld', '-r', '-o', core] + objs)
+        if rc != 0: errs.append('%s: ld -r failed' % name); continue
+        rc, out = sh(['nm', '-u', core]); extra.append((name, sorted(set(l.split()[-1] for l in out.split('\n') if l.strip()))))
+for tgt in ('x86_64-pc-windows-msvc', 'i686-pc-windows-msvc', 'aarch64-none-elf', 'arm-none-eabi', 'riscv32-unknown-elf'):
+    for opt in ('-O0', '-O2'):
+        name = 'clang %s -ffreestanding --target=%s' % (opt, tgt)
+        d = os.path.join(build, 'sym', ('x' + tgt + opt).replace('-', '_')); os.makedirs(d, exist_ok=True); und, dfn = set(), set(); ok = True
+        for f in CORE:
+            o = os.path.join(d, f[:-2] + '.o'); rc, out = sh(['clang', '--target=' + tgt, '-ffreestanding', opt, '-w', '-c', '-I' + inc, os.path.join(inc, f), '-o', o])
+            if rc != 0: errs.append('%s: %s does not compile: %s' % (name, f, out[-300:])); ok = False; continue
+            rc, out = sh(['llvm-nm', o])
+            for l in out.split('\n'):
+                t = l.split()
+                if len(t) == 2 and t[0] in 'Uw': und.add(t[1])
+                elif len(t) == 3: dfn.add(t[2])
+        if ok:
+            syms = sorted(und - dfn)
+            if tgt.startswith('i686-pc-windows'): syms = sorted(x[1:] if x.startswith('_') else x for x in syms)     # cdecl decoration
+            extra.append((name, syms))
 hdr = open(os.path.join(inc, 'lltdPort.h')).read()
 hdr = re.sub(r'/\*.*?\*/', '', hdr, flags=re.S)
 api = sorted(set(re.findall(r'\b(lltd_port_\w+)\s*\(', hdr)))
@@ -54,6 +85,7 @@ def cl(l): return '[' + '; '.join(cs(x) for x in l) + ']'
 o = ['(* GENERATED by bin/symfacts.py from compiling /repo\'s core on its own. Do not edit. *)', 'From Coq Require Import List String.', 'Import ListNotations.', 'Local Open Scope string_scope.', '']
 o.append('Definition port_api : list string :=\n  %s.' % cl(api))
 o.append('Definition builds : list (string * list string * list string) :=   (* configuration, undefined symbols, writable data symbols *)\n  [%s].' % ';\n   '.join('(%s, %s, %s)' % (cs(n), cl(u), cl(w)) for n, u, w in builds))
+o.append('Definition extra_builds : list (string * list string) :=   (* further configurations: -fPIC, other targets *)\n  [%s].' % ';\n   '.join('(%s, %s)' % (cs(n), cl(u)) for n, u in extra))
 o.append('Definition system_includes : list (string * list string) :=\n  [%s].' % ';\n   '.join('(%s, %s)' % (cs(f), cl(v)) for f, v in sysinc.items()))
 o.append('Definition lint_hits : list string := %s.' % cl(lint))
 o.append('Definition build_errors : list string := %s.' % cl(errs))
